@@ -4,13 +4,15 @@ import Driver.C08
 import Driver.C09
 import Driver.C11
 import Driver.C11Mon
+import Driver.C12Cons
 
 def suites : List (String × Driver.Suite) :=
   Driver.C07.suites ++
   Driver.C08.suites ++
   Driver.C09.suites ++
   Driver.C11.suites ++
-  Driver.C11Mon.suites
+  Driver.C11Mon.suites ++
+  Driver.C12Cons.suites
 
 def main (args : List String) : IO UInt32 := do
   match args with
